@@ -201,7 +201,7 @@ impl BDF {
             let mut y1 = vec![0.0; n];
             evals.ode += 1;
             let guess = hinit(
-                f, x, &y, direction, &f0, &mut f1, &mut y1, 1, hmax.min((xend - x).abs()), &atol, &rtol,
+                f, x, &y, direction, &f0, &mut f1, &mut y1, 2, hmax.min((xend - x).abs()), &atol, &rtol,
             );
             // Ensure x + h isn't larger than xend
             let diff = xend - x;
